@@ -51,7 +51,8 @@ Accept(e) ==
   ELSE IF e.a = "wire" THEN /\ (~e.closed \/ e.app \/ (KnownFec /\ FecAfterClose(e)))   \* P1 (application packets pass through)
                             /\ \A s \in DOMAIN ub : \A t \in P4Types : Bump(e)[s][t] <= InFlight + Queued(t)  \* P4
   ELSE IF e.a = "end" THEN ~e.aborted /\ e.leaked = 0                             \* P2
-  ELSE ~e.blocked /\ e.panic = ""                                                 \* P3
+  ELSE ~e.blocked /\ e.panic = "" /\ ("busy" \in DOMAIN e => ~e.busy)   \* P3 (+ P2: no goroutine of the chain is
+                                                                                  \* still inside the RTCP transport when Close returns)
 
 Step(e) ==
   /\ ub' = IF e.a \in {"unbindl", "unbindm"} /\ ~e.skipped THEN [s \in DOMAIN ub \cup {e.s} |-> IF s = e.s THEN Zero ELSE ub[s]]
